@@ -62,9 +62,17 @@ PROBES: List[List[str]] = [
     ["for i in range(2):", "    pass", "r = 5"],
     ["while q > 100:", "    pass", "r = 6"],
     ["if q > 2:", "    global r", "    r = 8"],
+    ['"""two', 'lines"""', "q = q + 1"], ["'''a", "b", "c'''", "led.on()"], ["from Reduino.Core import (", "    pin_mode,", "    OUTPUT)", "q = q + 1"],
+    ["import os, \\", "    sys", "r = 5"], ['"""one line"""', "q = q + 1"], ["from Reduino.Utils import (sleep,", "    map)", "led.set_brightness(7)"],
     ['"doc"; q = q + 1'], ["import time; q += 1"], ["pass; led.on()"], ["led.on(); pass"], ["from os import path; r = 5"], ['"a"; "b"'], ["print(q); q += 1"], ["...; r = 5"], ["global q; q = 9"],
     ["sv = Servo(10)", "sv.write(30)"], ["mon.write(f\"{q}\") ; q += 1"], ["r += 1  # trailing"], ["    "], ["# only a comment"], ["q = 3 \\", "    + 4"], ["mon.write(", "    q)"], ["y = [", "    7,", "    8]"],
 ]
+# identifiers that merely START with a keyword / a name the line-oriented parser reacts to
+_PREFIXES = ["global", "pass", "import", "return", "break", "continue", "def", "if", "while", "for", "try", "else", "elif", "except", "print", "from", "target", "sleep", "not", "and",
+             "in", "is", "lambda", "del", "assert", "with", "class", "raise", "True", "None", "nonlocal", "finally", "or", "as"]
+for _kw in _PREFIXES:
+    PROBES.append([f"{_kw}_v = q + 1", f"q = {_kw}_v"])
+    PROBES.append([f"{_kw}x = 2", f"r = {_kw}x + q"])
 OBSERVE = ["mon.write(q)", "mon.write(r)", "mon.write(y[0])", "mon.write(len(y))", "mon.write(led.get_brightness())"]
 SCOPE_WRAPS = {
     "top": lambda s: (s, None),
@@ -84,6 +92,10 @@ def accounting_cases() -> List[dict]:
         for sname, wrap in SCOPE_WRAPS.items():
             setup, loop = wrap(list(probe))
             pre = ["r = 1"]
+            first = probe[0].split(" = ")[0] if " = " in probe[0] else ""
+            if first.isidentifier() and any(first.startswith(kw) and first != kw for kw in _PREFIXES) and first not in ("r", "q"):
+                # the name exists beforehand, so a vanished assignment shows as a wrong value, not as a build error
+                pre.append(f"{first} = 0")
             if loop is None:
                 src = common.script(pre + setup + OBSERVE, None, prologue=PRO)
                 passes = 0
